@@ -13,7 +13,7 @@
    variant ([fixed] = the first round of repairs, [hardened] = fixes/C10-function-tags-read-first.patch and
    fixes/C11-atomic-cert.patch on top), the `_refuted_pinned` ones about [pinned]; which variant a source tree
    has is detected by the harness with witness builds. *)
-From Coq Require Import String List Bool Arith.
+From Coq Require Import String Ascii List Bool Arith.
 From JMCV Require Import Model.FS.
 Import ListNotations.
 Open Scope string_scope.
@@ -24,11 +24,17 @@ Record variant := mkVariant {
   v_mc_static : bool;    (* data/minecraft is deleted with the #static-aware rmtree when statics are declared *)
   v_ns_last : bool;      (* the namespace folder (holder of jmc.txt) is deleted after overrides and data/minecraft *)
   v_tags_early : bool;   (* the function-tag files are read (and rejected) before the first mutation, the parsed values kept *)
-  v_cert_atomic : bool   (* jmc.txt is written as jmc.txt.tmp and moved over the certificate with os.replace *)
+  v_cert_atomic : bool;  (* jmc.txt is written as jmc.txt.tmp and moved over the certificate with os.replace *)
+  v_ns_checked : bool;   (* the header rejects an #override / #link argument that is not a plain foreign namespace name *)
+  v_paths_checked : bool;(* build() rejects a function / JSON resource path with an empty, "." or ".." segment before the first mutation *)
+  v_tick_refresh : bool  (* a tick.json that outlives deletion and #copy is rewritten without this pack's entries when there is no tick function *)
 }.
-Definition pinned : variant := mkVariant true false false false false.
-Definition fixed : variant := mkVariant false true true false false.
-Definition hardened : variant := mkVariant false true true true true.
+Definition pinned : variant := mkVariant true false false false false false false false.
+Definition fixed : variant := mkVariant false true true false false false false false.
+Definition hardened : variant := mkVariant false true true true true false false false.
+(* [guarded] = [hardened] + fixes/C10-reject-non-namespace-override.patch (v_ns_checked),
+   fixes/C10-reject-resource-path-outside-folder.patch (v_paths_checked), fixes/C11-stale-own-tick-entry.patch (v_tick_refresh) *)
+Definition guarded : variant := mkVariant false true true true true true true true.
 (* the repairs every theorem needs; the two later flags are free *)
 Definition sound (v : variant) : Prop := v_cert_early v = false /\ v_mc_static v = true /\ v_ns_last v = true.
 
@@ -207,9 +213,26 @@ Definition early_tag (c : cfg) (h : hdr) (is_delete : bool) (cur : fs) (p : path
   | None => if is_delete && negb (excepted h p) then Some [] else read_tag c cur p
   end.
 
-Definition tag_ops (c : cfg) (o : output) (lv tv : list string) : list op :=
+Fixpoint strs_eqb (a b : list string) : bool :=
+  match a, b with
+  | [], [] => true
+  | x :: a', y :: b' => String.eqb x y && strs_eqb a' b'
+  | _, _ => false
+  end.
+
+(* [v_tick_refresh], no tick function: the tick.json that is on disk once deletion and #copy are done (inside a #static
+   folder, copied in, or left in a tree whose namespace folder was removed by hand) is rewritten with the values read
+   for the merge (this pack's entries filtered out) when it holds anything else *)
+Definition tick_refresh_ops (c : cfg) (tv : list string) (cur3 : fs) : list op :=
+  match file_at cur3 (tick_path c) with
+  | Some (Tag vs) => if strs_eqb vs tv then [] else [Create (tick_path c); Write (tick_path c) (Tag tv)]
+  | _ => []
+  end.
+
+Definition tag_ops (v : variant) (c : cfg) (o : output) (lv tv : list string) (cur3 : fs) : list op :=
   [Create (load_path c); Write (load_path c) (Tag (lv ++ [(c_ns c ++ ":" ++ c_load c)%string]))] ++
-  (if o_tick o then [Create (tick_path c); Write (tick_path c) (Tag (tv ++ [(c_ns c ++ ":" ++ c_tick c)%string]))] else []).
+  (if o_tick o then [Create (tick_path c); Write (tick_path c) (Tag (tv ++ [(c_ns c ++ ":" ++ c_tick c)%string]))]
+   else if v_tick_refresh v then tick_refresh_ops c tv cur3 else []).
 
 Definition meta_ops (h : hdr) (o : output) : list op :=
   if h_nometa h then [] else [Create meta_path; Write meta_path (Raw (o_meta o))].
@@ -228,7 +251,7 @@ Definition write_phase (v : variant) (c : cfg) (h : hdr) (o : output) (tags : op
          | None => (read_tag c cur3 (load_path c), read_tag c cur3 (tick_path c))
          end) with
   | (Some lv, Some tv) =>
-      let ops4 := tag_ops c o lv tv in
+      let ops4 := tag_ops v c o lv tv cur3 in
       let cur4 := run_ops ops4 cur3 in
       let ops5 := write_files cur4 (out_files c h o) in
       (ops1 ++ ops2 ++ ops3 ++ ops4 ++ ops5 ++ meta_ops h o, RDone)
@@ -251,8 +274,8 @@ Definition build (v : variant) (c : cfg) (h : hdr) (o : output) (is_delete : boo
     end
   else build_with v c h o None is_delete fault cur.
 
-(* compile_jmc *)
-Definition run (v : variant) (c : cfg) (h : hdr) (out : outcome) (fault : option path) (cur : fs)
+(* compile_jmc, once header and sources have been accepted or refused ([gate] below) *)
+Definition run_core (v : variant) (c : cfg) (h : hdr) (out : outcome) (fault : option path) (cur : fs)
   : list op * result :=
   match out with
   | FailHeader => ([], RHeaderErr)
@@ -274,6 +297,42 @@ Definition run (v : variant) (c : cfg) (h : hdr) (out : outcome) (fault : option
         end
   end.
 
+Definition plan_core v c h out fault cur : list op := fst (run_core v c h out fault cur).
+
+(* ---- names that become path segments ---- *)
+(* A [path] of this model is a list of segments and [lookup] / [alter] treat every segment as the name of a child.  That is
+   the meaning the operating system gives the path only when no segment is "", "." or ".." or contains a separator.
+   Segments that come from directory listings (deletion, #copy) are such names by nature; the ones that come from the
+   header (#override / #link namespaces) and from the sources (function / JSON resource paths, which include names taken
+   from string arguments of built-in functions and from jmc.txt) are checked:
+   - header_parse.py __check_namespace ([v_ns_checked]): an #override / #link argument is a namespace name
+     ([a-z0-9_.-]+, not "." / ".."; the model only needs [plain]) and not the pack's own namespace  -> HeaderSyntaxException;
+   - compiling.py check_resource_paths ([v_paths_checked]): after DataPack.build(), before the first mutation, every key
+     of datapack.functions / datapack.jsons is split at "/" and must have [plain] segments  -> JMCBuildError. *)
+Fixpoint no_sep (s : string) : bool :=
+  match s with
+  | EmptyString => true
+  | String a r => negb (Ascii.eqb a "/"%char) && negb (Ascii.eqb a "\"%char) && no_sep r
+  end.
+Definition plain (s : string) : bool :=
+  negb (String.eqb s "") && negb (String.eqb s ".") && negb (String.eqb s "..") && no_sep s.
+Definition hdr_ok (c : cfg) (h : hdr) : bool :=
+  forallb (fun o => plain o && negb (String.eqb o (c_ns c))) (h_overrides h).
+Definition res_ok (p : path) : bool := match p with [] => false | _ :: _ => forallb plain p end.
+Definition out_ok (o : output) : bool :=
+  forallb (fun e => res_ok (fst e)) (o_funcs o) && forallb (fun e => res_ok (fst e)) (o_jsons o).
+
+(* what the checks turn the front end's outcome into *)
+Definition gate (v : variant) (c : cfg) (h : hdr) (out : outcome) : outcome :=
+  if v_ns_checked v && negb (hdr_ok c h) then FailHeader
+  else match out with
+       | Success o => if v_paths_checked v && negb (out_ok o) then FailBuild else out
+       | _ => out
+       end.
+
+(* compile_jmc *)
+Definition run (v : variant) (c : cfg) (h : hdr) (out : outcome) (fault : option path) (cur : fs)
+  : list op * result := run_core v c h (gate v c h out) fault cur.
 Definition plan v c h out fault cur : list op := fst (run v c h out fault cur).
 
 (* ---- the territory of a build (C10) ---- *)
